@@ -2,16 +2,6 @@
 open Model
 open Sx
 
-let capval_of = function
-  | L [A "V"; c] -> CVal (const_of c)
-  | L [A "F"; A "-"] -> CFun None
-  | L [A "F"; e] -> CFun (Some (expr_of e))
-  | _ -> failwith "capval"
-
-let var_of = function
-  | L [A h; v] -> (unhx h, capval_of v)
-  | _ -> failwith "var"
-
 let attr_of = function
   | L [c; A h; L [A "V"; r]] -> ((const_of c, unhx h), AVal (const_of r))
   | L [c; A h; L [A "E"; A "-"]] -> ((const_of c, unhx h), AEnum None)
@@ -19,7 +9,20 @@ let attr_of = function
   | L [c; A h; A "C"] -> ((const_of c, unhx h), ACrash)
   | _ -> failwith "attr"
 
-let cenv_of = function
+(* (H <cenv> <lambda>) = a helper whose source was parsed: FC5 rewrites it with its own snapshot (one
+   [helper_capval] step of the model per helper; the nesting of the S-expression is the nesting of helpers) *)
+let rec capval_of = function
+  | L [A "V"; c] -> CVal (const_of c)
+  | L [A "F"; A "-"] -> CFun None
+  | L [A "F"; e] -> CFun (Some (expr_of e))
+  | L [A "H"; ce; e] -> helper_capval (cenv_of ce) (expr_of e)
+  | _ -> failwith "capval"
+
+and var_of = function
+  | L [A h; v] -> (unhx h, capval_of v)
+  | _ -> failwith "var"
+
+and cenv_of = function
   | L [L nl; L gl; L at] ->
       { ce_nonlocals = List.map var_of nl; ce_globals = List.map var_of gl; ce_attrs = List.map attr_of at }
   | _ -> failwith "cenv"
